@@ -39,7 +39,7 @@ pub struct Sc {
 
 pub fn runs_for(_prop: &str, tier: Tier) -> u64 {
     match tier {
-        Tier::Quick => 2048,
+        Tier::Quick => 6144,
         Tier::Thorough => 24576,
     }
 }
